@@ -390,12 +390,12 @@ def objdump_of(elf: bytes, sections=None, style="att"):
 
 
 RULE_NAMES = ["rule.yaml", "rule.yaml", "rules/my rule.yaml", "r.yml", "r\u00e8gle.yaml", "deep/er/dir/rule.yaml", "rule",
-              "h#sh & amp.yaml", "100%.yaml", "q'uote.yaml", "br[ack]et{s}.yaml", "~/rule.yaml", "$HOME/rule.yaml"]
+              "h#sh & amp.yaml", "100%.yaml", "q'uote.yaml", "br[ack]et{s}.yaml", "~/rule.yaml", "$HOME/rule.yaml", "@rule.yaml", "@args/rule.yaml"]
 ASM_NAMES = ["in.s", "in.s", "dir with space/in put.s", "sub/listing.s", "dump.txt", "in", "50%_packed.s", "star*.s", "we ird$name;x.s",
-             "listing.o", "UPPER.ASM", "~/in.s", "$HOME/in.s", "${PATH}.s"]
+             "listing.o", "UPPER.ASM", "~/in.s", "$HOME/in.s", "${PATH}.s", "@in.s"]
 BIN_NAMES = ["in.bin", "in.o", "bin dir/a b.o", "prog", "sub/lib.so.1", "caf\u00e9.o", "100%.o", "obj.s", "obj.S", "code.asm", "a'b\"c.o", "x[1]?.o",
              "~/prog", "$HOME/a.o"]
-MACRO_DIRS = ["macros", "macros", "my macros", "m/acro", "100% macros", "~", "$HOME/macros"]
+MACRO_DIRS = ["macros", "macros", "my macros", "m/acro", "100% macros", "~", "$HOME/macros", "@macros"]
 
 
 def pick_names(rng):
